@@ -88,6 +88,7 @@ type Engine struct {
 	lastAnyArgs  []Value
 	published    map[string]bool // locally allocated objects that have been sent on a stream
 	trackAlloc   bool            // the contract under verification talks about freshness: allocations are numbered
+	inRel        bool            // inside the two runs of a relational check
 	globalErrs   map[string]*Term
 	extraStreams []*Term
 }
@@ -141,6 +142,11 @@ func (e *Engine) oblName(kind string) string {
 
 // assert goal under st.pc; the goal is split into conjuncts, implications and top-level foralls are opened.
 func (e *Engine) assert(st *State, goal *Term, kind, where string, tags []string) {
+	if e.inRel && !strings.HasPrefix(kind, "rel:") {
+		// the two runs of a relational check re-execute the body: its ordinary obligations (callee preconditions, loop
+		// invariants, bounds) are those of the function's own verification and are not generated a second time
+		return
+	}
 	hyps := st.pc
 	if len(e.globalErrs) > 0 {
 		hyps = append([]*Term(nil), st.pc...)
